@@ -42,6 +42,10 @@ func checkURIParse(w *core.Worker, u []byte) (accepted bool) {
 	var p sipsp.PsipURI
 	var e sipsp.ErrorURI
 	var n int
+	if w.Idx%2 == 1 {
+		// the result structure was used for another URI before and Reset()
+		core.Guard(func() { sipsp.ParseURI([]byte("sips:olduser:oldpw@[::9]:5099;ttl=3;maddr=h?old=1"), &p); p.Reset() })
+	}
 	pan, pmsg, _ := core.Guard(func() { e, n = sipsp.ParseURI(u, &p) })
 	w.Eval(1)
 	if pan {
